@@ -27,8 +27,42 @@ def _expand(payload, sub):
     sc = PL.gen_pipeline(rng, tables, payload['nsteps'], exclude=('checkpoint',) + (('dump_to_path', 'dump_to_zip') if steer else ()), stats=stats)
     if steer and rng.random() < 0.3:
         sc['steps'].append(ST.GENS[rng.choice(['dump_to_path', 'dump_to_zip'])](rng, None, ST.G()))
+    # motif: duplicate a resource that has array / object cells, then edit nested values in place further down the same chain
+    nested = [t['name'] for t in tables if any(f['type'] in ('array', 'object') for f in t['fields']) and t['rows']]
+    if nested and rng.random() < 0.35:
+        try:
+            names = [r['name'] for r in PL.describe(sc, {'calls': {}})['resources']]
+        except Exception:  # noqa
+            names = []
+        src = [n for n in nested if names.count(n) == 1]
+        if src:
+            extra = [{'step': 'duplicate', 'source': rng.choice(src), 'target': 'dupm', 'to_end': rng.random() < 0.5, 'batch_size': rng.choice([1, 2, 50, 1000])},
+                     {'step': 'nested_edit', 'tag': 'seenm'}]
+            trial = dict(sc, steps=sc['steps'] + extra)
+            try:
+                PL.describe(trial, {'calls': {}})
+                sc['steps'] = trial['steps']
+            except Exception:  # noqa
+                pass
+    # motif: a step that carries state from one resource to the next, followed by the deletion of the earlier resource
+    if rng.random() < 0.12:
+        try:
+            names = [r['name'] for r in PL.describe(sc, {'calls': {}})['resources']]
+        except Exception:  # noqa
+            names = []
+        uniq = [n for n in names if names.count(n) == 1]
+        if uniq:
+            src = rng.choice(uniq)
+            extra = [{'step': 'duplicate', 'source': src, 'target': 'dupd', 'to_end': rng.random() < 0.5, 'batch_size': rng.choice([1, 2, 1000])},
+                     {'step': 'delete_resource', 'resources': rng.choice([src, [src]])}]
+            trial = dict(sc, steps=sc['steps'] + extra)
+            try:
+                PL.describe(trial, {'calls': {}})
+                sc['steps'] = trial['steps']
+            except Exception:  # noqa
+                pass
     sc['source_kinds'] = [rng.choice(['list', 'list', 'gen', 'iter']) for _ in tables]
-    if rng.random() < payload.get('bad_p', 0.06):
+    if rng.random() < payload.get('bad_p', 0.10):
         sc['steps'].insert(rng.randrange(len(sc['steps']) + 1), {'step': 'bad_link', 'kind': rng.choice(ST.BAD_LINKS)})
     n = len(sc['steps'])
     variants = [{'segments': [list(range(n))], 'api': 'results'},                       # fully lazy, flat
